@@ -265,6 +265,9 @@ def _match_instances(spec, t, vinsts, out, d):
                 f = child_ports[k] if k < len(child_ports) else f"#{k}"
             elif a.formal.kind == "name":
                 f = a.formal.id
+            elif a.formal.kind == "apply" and a.formal.prefix.kind == "name" and a.formal.prefix.id in CONVERSIONS \
+                    and len(a.formal.args) == 1 and a.formal.args[0].kind == "name":
+                f = a.formal.args[0].id        # type conversion on the formal: std_logic_vector(o) => actual
             else:
                 probs.append(("partial_formal", "", "", "formal is not a simple name"))
                 continue
@@ -357,6 +360,8 @@ def portmap_signature(e, classes):
     cause = "unexplained"
     if e.rule == "S-type" and parts & {"view", "numslice"}:
         cause = "typed_actual"
+    elif e.rule == "S-type" and "expr" in parts and "boolean" in e.msg:
+        cause = "bool_expr_actual"      # a comparison (bool) given for a Bit formal
     elif e.rule == "S-width" and "narrower" in parts:
         cause = "narrower_actual"
     elif e.rule == "S-width" and "wider" in parts:
@@ -411,7 +416,7 @@ def check(case):
         msg = str(e)
         cls = "other"
         for key in ("written in multiple contexts", "assignment to port", "no definition provided", "type mismatch",
-                    "width mismatch", "is less than source width"):
+                    "width mismatch", "is less than source width", "not in the representable"):
             if key in msg:
                 cls = key.replace(" ", "_")
         if cls == "other":
